@@ -89,11 +89,12 @@ func (d *updogDriver) openFile(file string, optValues url.Values) (driver.Conn, 
 		opts = append(opts, updog.WithCache(lruCache))
 	}
 
-	d.fileConnMtx.RLock()
-	conn, ok := d.fileConnCache[key]
-	d.fileConnMtx.RUnlock()
+	// look up, open and insert under one lock: concurrent first use of a data source
+	// must not open the same file twice (the second open would block on the file lock).
+	d.fileConnMtx.Lock()
+	defer d.fileConnMtx.Unlock()
 
-	if ok {
+	if conn, ok := d.fileConnCache[key]; ok {
 		conn.refs.Add(1)
 		return conn, nil
 	}
@@ -103,13 +104,13 @@ func (d *updogDriver) openFile(file string, optValues url.Values) (driver.Conn, 
 		return nil, fmt.Errorf("couldn't open index file %q: %v", file, err)
 	}
 
-	conn = &fileConn{
+	conn := &fileConn{
 		idx: idx,
+		drv: d,
+		key: key,
 	}
 
-	d.fileConnMtx.Lock()
 	d.fileConnCache[key] = conn
-	d.fileConnMtx.Unlock()
 
 	conn.refs.Add(1)
 
@@ -127,6 +128,8 @@ func (d *updogDriver) openConn(host string, port string) (driver.Conn, error) {
 
 type fileConn struct {
 	idx *updog.Index
+	drv *updogDriver
+	key fileCacheKey
 
 	refs atomic.Int32
 }
@@ -148,9 +151,20 @@ func (c *fileConn) prepare(query string) (*fileStmt, error) {
 }
 
 func (c *fileConn) Close() error {
+	c.drv.fileConnMtx.Lock()
+	defer c.drv.fileConnMtx.Unlock()
+
 	if c.refs.Add(-1) <= 0 {
+		// the last user is gone: forget the connection so that the data source can be opened again.
+		if c.drv.fileConnCache[c.key] == c {
+			delete(c.drv.fileConnCache, c.key)
+		}
+
 		idx := c.idx
 		c.idx = nil
+		if idx == nil {
+			return nil
+		}
 		return idx.Close()
 	}
 
